@@ -41,7 +41,7 @@ ALLK = '{"app","chal","resp"}'
 ALLC = '{"ok","none","other"}'
 MGR_F = ["INVARIANT TypeOK", "INVARIANT ThreeTimesBudget", "PROPERTY MgrResponseSound"]
 CONN_F = ["INVARIANT TypeOK", "INVARIANT ThreeTimesBudget", "INVARIANT NoRRCNoMigration", "INVARIANT OwnCIDOnly",
-          "INVARIANT PeerCIDOnEveryProtectedRecord", "INVARIANT OnlyRrcOffPath", "PROPERTY AddrChangesOnlyAfterValidatedPath"]
+          "INVARIANT PeerCIDOnEveryProtectedRecord", "INVARIANT NoAppDataOffPath", "PROPERTY AddrChangesOnlyAfterValidatedPath"]
 ROUTE_F = ["INVARIANT RoutedToOwner", "INVARIANT RoutedByAddress"]
 CONN = {"Part": '"conn"', "V": 1, "Sizes": "{1,3}", "MaxClock": 3, "MaxCookie": 2, "Kinds": ALLK}
 CLASSES = {"TT": ("TRUE", "TRUE", ALLK, ALLC), "TF": ("TRUE", "FALSE", '{"app"}', ALLC),
@@ -65,7 +65,7 @@ def all_cfgs():
     for tier, k in (("quick", 0), ("thorough", 2)):
         out["CidRrc.mgr.mc.%s.cfg" % tier] = cfg_text({"MaxSteps": 6 + k}, MGR_F)
         out["CidRrc.mgr.gen.%s.cfg" % tier] = cfg_text(
-            {"MaxSteps": 4 + k, "MaxClock": 3, "Sizes": "{1,3}", "Eager": "TRUE", "Gen": "TRUE"}, [], gen="EmitEdge")
+            {"MaxSteps": 4 + k // 2, "MaxClock": 3, "Sizes": "{1,3}", "Eager": "TRUE", "Gen": "TRUE"}, [], gen="EmitEdge")
         out["CidRrc.conn.mc.mig.%s.cfg" % tier] = cfg_text(dict(CONN, MaxSteps=6 + k // 2, MaxSeq=2), CONN_F)
         out["CidRrc.conn.mc.race.%s.cfg" % tier] = cfg_text(
             dict(CONN, MaxSteps=6 + k, MaxSeq=3, Sizes="{1}", Kinds='{"app","resp"}'), CONN_F)
@@ -106,6 +106,7 @@ def all_cfgs():
                 o["RRC"] = "TRUE" if rrc == "T" else "FALSE"
                 name = "TraceCidRrc.%s%s%s" % (rrc, own, peer)
                 out[name + ".batch.cfg"] = cfg_text(dict(o, Strict="TRUE"), [], spec="TSpecG", extra=["POSTCONDITION Accepted"])
+                out[name + ".loose.cfg"] = cfg_text(dict(o, Strict="FALSE"), [], spec="TSpecG", extra=["POSTCONDITION Accepted"])
                 out[name + ".proj.cfg"] = cfg_text(dict(o, Strict="FALSE"), [f for f in CONN_F if "TypeOK" not in f],
                                                    spec="TSpec", extra=["POSTCONDITION Accepted"])
     return out
@@ -284,7 +285,7 @@ def build_cases(chk, per):
     for c in cfgs:
         by_class.setdefault(class_of(c), []).append(c)
     cases = []
-    k_fast, k_tick = (48, 6) if chk.quick else (500, 40)
+    k_fast, k_tick = (48, 6) if chk.quick else (250, 24)
     for cls, members in sorted(by_class.items()):
         scripts = per[cls]
         for slow, k in ((False, k_fast), (True, k_tick)):
@@ -310,7 +311,29 @@ def build_cases(chk, per):
                     cases.append(dict(m, script=sc, feat=list(ft), seed=rng.randint(1, 10 ** 9), cls=cls,
                                       complete=rng.random() < 0.6,
                                       fromZero=m["scen"]["ver"] == "13" and rng.random() < 0.5))
-    return cases
+    return cases + hs_cases(chk, per, rng)
+
+
+def hs_cases(chk, per, rng):
+    """handshake phase: the peer's k-th datagram (k = 0..5, i.e. every flight of every handshake variant) arrives from a
+    foreign address; afterwards a short model script runs and every challenge is answered"""
+    out = []
+    for ver in ("12", "13"):
+        for cc, cs in ((4, 8), (8, 4), (4, 4), (0, 4), (4, 0)):
+            for rrc in (True, False):
+                for e in ("s", "c"):
+                    cfg = {"scen": {"ver": ver, "cidC": cc, "cidS": cs, "helloVerify": ver == "12"}, "rrc": rrc, "e": e,
+                           "name": "hs/dtls%s/cidC=%s/cidS=%s/rrc=%s/E=%s" % (ver, cc, cs, "on" if rrc else "off", e)}
+                    cls = class_of(cfg)
+                    pool = [sc for sc, ft in per[cls] if "tick" not in ft and len(sc) <= 5]
+                    for k in range(6):
+                        rws = [{str(k): "a2"}]
+                        if not chk.quick:
+                            rws += [{str(k): "a3", str(k + 1): "a2"}, {str(k): "a2", str(k + 1): "a2"}]
+                        for rw in rws:
+                            out.append(dict(cfg, script=rng.choice(pool), rewrite=rw, complete=True, hs=True, cls=cls,
+                                            feat=["handshake-phase"], seed=rng.randint(1, 10 ** 9)))
+    return out
 
 
 def run_conn(chk, binary, cases, par):
@@ -363,7 +386,7 @@ def tlc_trace_run(cfg, lines):
     return vlib.tlc_trace(TRACE, cfg, lines, timeout=900, java_opts="-Xss16m")
 
 
-def validate_class(key, sessions):
+def validate_class(key, sessions, batch="batch"):
     """sessions: list of (case index, events).  Returns (rejected: [(case, formula or None, detail)], diverged: [case], events, runs)"""
     rejected, diverged, nev, runs = [], [], 0, 0
     todo = list(sessions)
@@ -372,7 +395,7 @@ def validate_class(key, sessions):
         for ci, evs in todo:
             lines += evs
             owner += [ci] * len(evs)
-        res = tlc_trace_run("TraceCidRrc.%s.batch.cfg" % key, lines)
+        res = tlc_trace_run("TraceCidRrc.%s.%s.cfg" % (key, batch), lines)
         runs += 1
         if res.ok:
             nev += len(lines)
@@ -412,7 +435,7 @@ def start_tlc(chk):
     mc = concurrent.futures.ThreadPoolExecutor(max_workers=4)
     ge = concurrent.futures.ThreadPoolExecutor(max_workers=6)
     gens, checks, broken = {}, {}, {}
-    nsim = 60 if chk.quick else 1500
+    nsim = 60 if chk.quick else 600
     gens["mgr.gen"] = ge.submit(vlib.tlc_generate, MODULE, "CidRrc.mgr.gen.%s.cfg" % t, timeout=1500)
     for cls in CLASSES:
         gens["conn.gen." + cls] = ge.submit(vlib.tlc_generate, MODULE, "CidRrc.conn.gen.%s.%s.cfg" % (cls, t), timeout=1500)
@@ -480,18 +503,30 @@ def part_connections(chk, gens):
             namb += 1
             continue
         key = ("T" if cl["rrc"] else "F") + ("T" if cl["own"] else "F") + ("T" if cl["peer"] else "F")
-        groups.setdefault(key, []).append((i, r["events"]))
+        # handshake-phase sessions: the manager model has not seen the handshake, only the formulas are applied
+        groups.setdefault((key, "loose" if c.get("hs") else "batch"), []).append((i, r["events"]))
     if nlab > len(cases) // 50:
         raise vlib.Inconclusive("%d of %d connection cases could not run" % (nlab, len(cases)))
     nval, nev, runs, ndiv = 0, 0, 0, 0
+    chunks = []
+    for key, sess in sorted(groups.items()):          # at most ~40 000 events per TLC run
+        cur, size = [], 0
+        for item in sess:
+            cur.append(item)
+            size += len(item[1])
+            if size >= 40000:
+                chunks.append((key, cur))
+                cur, size = [], 0
+        if cur:
+            chunks.append((key, cur))
     with concurrent.futures.ThreadPoolExecutor(max_workers=8) as ex:
-        futs = {ex.submit(validate_class, key, sess): key for key, sess in groups.items()}
+        futs = {ex.submit(validate_class, key[0], sess, key[1]): (key, sess) for key, sess in chunks}
         for f in concurrent.futures.as_completed(futs):
-            key = futs[f]
+            key, sess = futs[f]
             rejected, diverged, n, k = f.result()
             nev += n
             runs += k
-            nval += len(groups[key]) - len(rejected)
+            nval += len(sess) - len(rejected)
             for ci, formula in rejected:
                 c = cases[ci]
                 if formula is None:
